@@ -616,6 +616,11 @@ impl Session {
 
         let req = HandshakeReq::from(payload.iter().copied())?;
 
+        if req.window_size == 0 {
+            warn!("RX handshake integrity failure: window size 0");
+            return Err(ErrorCode::InvalidData.into());
+        }
+
         let version = req.versions().min().unwrap_or(4);
 
         let mtu = if req.mtu == 0 {
@@ -645,6 +650,9 @@ impl Session {
             // Used MTU should not be bigger than the maximum allowed
             min(req.mtu, MAX_MTU)
         };
+
+        // Whatever the peer and the GATT layer claim, never go below the minimum ATT MTU
+        let mtu = mtu.clamp(MIN_MTU, MAX_MTU);
 
         // Remove the header as we need to report back the payload MTU
         // and we'll use the payload MTU anyway for all operations
